@@ -36,9 +36,10 @@ def run(ck, ctx):
               f.loc(node))
     ck.floor("T-FLAGFLOW.silent", 1)
     init = m.parser_method("__init__")
-    stores = [n for n in ast.walk(init.node) if isinstance(n, ast.Assign) and any(
+    from ..linemodel import LineMachine
+    stores = [n for g in LineMachine(ctx).init_funcs for n in ast.walk(g.node) if isinstance(n, ast.Assign) and any(
         isinstance(t, ast.Attribute) and t.attr == "silent" for t in n.targets)]
-    ck.ob("T-FLAGFLOW.silent", "Parser.__init__ stores the silent setting", len(stores) == 1, "", init.loc())
+    ck.ob("T-FLAGFLOW.silent", "the constructor stores the silent setting", len(stores) >= 1, "", init.loc())
     # exception classes
     err = m.classes.get(("simple_ddl_parser.ddl_parser", "DDLParserError"))
     base = ("simple_ddl_parser.exception", "SimpleDDLParserException")
